@@ -246,10 +246,20 @@ func TestVerifC12(t *testing.T) {
 		base := verifC12GenSet(r)
 		p := &vk.RProg{Fallback: vk.ROut{Name: "direct"}}
 		nr := 1 + r.IntN(4)
+		many := i%4 == 3
+		if many {
+			// more sets than the builder handles on its serial path, of unequal sizes
+			nr = 5 + r.IntN(5)
+			m.Count("programs_with_5_to_9_sets", 1)
+		}
 		var allsets [][]string
 		for j := 0; j < nr; j++ {
 			set := append([]string(nil), base...)
-			switch r.IntN(4) {
+			kind := r.IntN(4)
+			if many && r.IntN(3) != 0 {
+				kind = 2
+			}
+			switch kind {
 			case 0: // permuted + duplicated
 				r.Shuffle(len(set), func(a, b int) { set[a], set[b] = set[b], set[a] })
 				set = append(set, set[0])
@@ -526,7 +536,7 @@ func TestVerifC12(t *testing.T) {
 			}
 		}
 	}
-	m.Require("real_hash_collisions_constructed", "programs_probed_with_a_missing_slot", "missing_slot_routing_aborted")
+	m.Require("real_hash_collisions_constructed", "programs_probed_with_a_missing_slot", "missing_slot_routing_aborted", "programs_with_5_to_9_sets")
 	m.Require("trie_inside", "trie_outside", "kern_inside", "kern_outside", "slash0_v4_sets", "slash0_v6_sets", "programs_with_shared_sets", "forced_hash_collisions")
 	m.Done(t)
 }
